@@ -6,6 +6,8 @@ Each one rewrites every *.py file below a root IN PLACE with `ast.unparse`:
             names; names re-bound as parameters / class attributes of nested scopes or declared global/nonlocal are left alone)
   invert    `if c: A else: B` -> `if not c: B else: A`, `x if c else y` -> `y if not c else x`, and a function ending in
             `if c: A` gets a guard clause (`if not c: return` + A); `not c` is simplified for ==, in, is and double negation
+  temps     inside functions: `return E` -> `_ret_tmp1 = E; return _ret_tmp1`, `raise E` -> `_exc_tmp2 = E; raise _exc_tmp2`,
+            `if C:` -> `_cond_tmp3 = C; if _cond_tmp3:` (never for `elif`; temporaries numbered per function)
   reorder   each run of consecutive undecorated methods of a class / undecorated top-level functions (not referenced by
             module-level code) is reversed
 
@@ -240,6 +242,82 @@ def _invert_module(tree: ast.Module) -> tuple[ast.Module, int]:
     return tree, inv.count
 
 
+class TempIntroducer(ast.NodeTransformer):
+    """Inside functions: `return E` -> `_ret_tmp = E; return _ret_tmp`, `raise E` -> `_exc_tmp = E; raise _exc_tmp` (cause kept),
+    `if C:` -> `_cond_tmp = C; if _cond_tmp:` (not for `elif`, whose test must stay behind the earlier tests)."""
+
+    def __init__(self):
+        self.count = 0
+        self.depth = 0
+        self.k = 0
+
+    def _function(self, node):
+        self.depth += 1
+        k, self.k = self.k, 0  # temporaries are numbered per function: every one is assigned once
+        node.body = self._block(node.body)
+        self.k = k
+        self.depth -= 1
+        return node
+
+    def _tmp(self, stem: str) -> str:
+        self.k += 1
+        return f"_{stem}_tmp{self.k}"
+
+    visit_FunctionDef = _function
+    visit_AsyncFunctionDef = _function
+
+    def visit_Lambda(self, node):
+        return node
+
+    def visit_ClassDef(self, node):
+        d, self.depth = self.depth, 0
+        node.body = self._block(node.body)
+        self.depth = d
+        return node
+
+    def _block(self, stmts: list[ast.stmt], elif_position: bool = False) -> list[ast.stmt]:
+        out: list[ast.stmt] = []
+        for i, st in enumerate(stmts):
+            if isinstance(st, (ast.FunctionDef, ast.AsyncFunctionDef, ast.ClassDef)):
+                out.append(self.visit(st))
+                continue
+            for f in ("body", "orelse", "finalbody"):
+                sub = getattr(st, f, None)
+                if isinstance(sub, list) and sub and isinstance(sub[0], ast.stmt):
+                    is_elif = f == "orelse" and isinstance(st, ast.If) and len(sub) == 1 and isinstance(sub[0], ast.If)
+                    setattr(st, f, self._block(sub, elif_position=is_elif))
+            for h in getattr(st, "handlers", []) or []:
+                h.body = self._block(h.body)
+            for c in getattr(st, "cases", []) or []:
+                c.body = self._block(c.body)
+            if self.depth == 0:
+                out.append(st)
+                continue
+            simple = (ast.Name, ast.Constant)
+            if isinstance(st, ast.Return) and st.value is not None and not isinstance(st.value, simple):
+                self.count += 1
+                nm = self._tmp("ret")
+                out += [ast.Assign(targets=[ast.Name(id=nm, ctx=ast.Store())], value=st.value), ast.Return(value=ast.Name(id=nm, ctx=ast.Load()))]
+            elif isinstance(st, ast.Raise) and st.exc is not None and not isinstance(st.exc, simple):
+                self.count += 1
+                nm = self._tmp("exc")
+                out += [ast.Assign(targets=[ast.Name(id=nm, ctx=ast.Store())], value=st.exc), ast.Raise(exc=ast.Name(id=nm, ctx=ast.Load()), cause=st.cause)]
+            elif isinstance(st, ast.If) and not (elif_position and i == 0) and not isinstance(st.test, simple):
+                self.count += 1
+                nm = self._tmp("cond")
+                out += [ast.Assign(targets=[ast.Name(id=nm, ctx=ast.Store())], value=st.test), ast.If(test=ast.Name(id=nm, ctx=ast.Load()), body=st.body, orelse=st.orelse)]
+            else:
+                out.append(st)
+        return out
+
+
+def _temps_module(tree: ast.Module) -> int:
+    t = TempIntroducer()
+    tree.body = t._block(tree.body)
+    ast.fix_missing_locations(tree)
+    return t.count
+
+
 def apply(root: str, which: tuple[str, ...], suffix: str = "_r") -> int:
     """Applies the named transformations (in the order reorder, invert, rename) to every *.py below `root`, in place."""
     total = 0
@@ -258,6 +336,8 @@ def apply(root: str, which: tuple[str, ...], suffix: str = "_r") -> int:
             if "invert" in which:
                 tree, n = _invert_module(tree)
                 k += n
+            if "temps" in which:
+                k += _temps_module(tree)
             if "rename" in which:
                 k += rename_module(tree, suffix)
             if k:
